@@ -11,7 +11,7 @@ META = dict(
 
 def jobs(tier):
     js = []
-    for cap, t in ((4, "quick"), (8, "thorough")):
+    for cap, t in ((4, "quick"), (6, "quick"), (8, "thorough")):
         # (3, "put-rehash") is not run: the new capacity is symbolic after rehash, and `hash % capacity` with a symbolic
         # divisor does not finish on any back end here (DESIGN.md C17); rehash is therefore NOT under contract.
         for opn, nm in ((0, "get"), (1, "put"), (2, "delete")):
@@ -29,4 +29,6 @@ def jobs(tier):
                           unwind=(None if opn == 3 else 2), unwindset=[f"{l}:{big}" for l in loops],
                           bounded=f"capacity {cap}, 3 distinct keys; arbitrary table state, hash values and history",
                           replay=None, sample=f"{nm} from an arbitrary well-formed state of a capacity-{cap} table"))
+    js.append(Job(name="hm-match", src="match.c", group="C17 key comparison", mode="plain", cut=["error", "error_tok", "error_at"], unwind=26, timeout=300, replay=None,
+                  bounded="keys of at most 20 bytes", sample="match() on arbitrary keys up to 20 bytes"))
     return js
